@@ -20,7 +20,7 @@ namespace Nebula.Driver.Certsign
 open Nebula.Driver Nebula.Net Nebula.Cert Nebula.Spec.Trust Nebula.Driver.Certverify
 
 def invStr : InvErr → String
-  | .publicKey => "public-key" | .noNetworks => "no-networks" | .invalidNetwork => "invalid-network"
+  | .name => "name" | .emptyGroup => "empty-group" | .publicKey => "public-key" | .noNetworks => "no-networks" | .invalidNetwork => "invalid-network"
   | .zeroAddress => "zero-address" | .fourInSix => "4in6" | .v1IPv6 => "v1-ipv6" | .duplicateNetwork => "duplicate-network"
   | .invalidUnsafe => "invalid-unsafe" | .v1IPv6Unsafe => "v1-ipv6-unsafe" | .unsafeNeedsV6 => "unsafe-needs-v6"
   | .unsafeNeedsV4 => "unsafe-needs-v4" | .duplicateUnsafe => "duplicate-unsafe"
@@ -42,7 +42,7 @@ def signVerdict (signer : Option (Cert × String)) (keyok : Bool) (t : Cert) (im
   match parseCert ((impl.splitOn " ").drop 1) with
   | some (c, [lowS, v1, v2]) =>
     let fieldsOk := c.version == t.version && c.curve == t.curve && c.name == t.name && c.groups == t.groups &&
-      c.isCA == t.isCA && c.notBefore == t.notBefore && c.notAfter == t.notAfter && c.publicKey == t.publicKey &&
+      c.isCA == t.isCA && c.notBefore == floorSec t.notBefore && c.notAfter == floorSec t.notAfter && c.publicKey == t.publicKey &&
       sameNets c.networks t.networks && sameNets c.unsafeNetworks t.unsafeNetworks
     match signer with
     | some (ca, fp) =>
@@ -51,7 +51,8 @@ def signVerdict (signer : Option (Cert × String)) (keyok : Bool) (t : Cert) (im
         "bad signed-outside-ca-constraints"
       else if ca.curve != t.curve then "bad sign-curve-differs-from-signer"
       else if !fieldsOk || c.issuer != fp then "bad issued-fields-differ"
-      else if keyok && ca.isCA && decide (t.notBefore ≤ t.notAfter) && (v1 != "ok" || v2 != "ok") then
+      else if keyok && ca.isCA && ca.notBefore % 1000000000 == 0 && decide (floorSec t.notBefore ≤ floorSec t.notAfter) &&
+          (v1 != "ok" || v2 != "ok") then
         s!"bad issued-does-not-verify {v1} {v2}"
       else if t.curve == curveP256 && lowS != "1" then "bad issued-high-s"
       else "ok"
